@@ -191,10 +191,59 @@ def gen_clamp() -> str:
     return "\n\n".join(out) + "\n"
 
 
+def gen_magic() -> str:
+    """mypy/sharedparse.py: MAGIC_METHODS_POS_ARGS_ONLY (set algebra over literal sets) and the two name predicates."""
+    src = vlib.read_repo("mypy/sharedparse.py")
+    tree = ast.parse(src)
+    env: dict[str, set[str]] = {}
+
+    def ev(e: ast.expr) -> set[str]:
+        if isinstance(e, ast.Set) and all(isinstance(x, ast.Constant) and isinstance(x.value, str) for x in e.elts):
+            return {x.value for x in e.elts}  # type: ignore[attr-defined]
+        if isinstance(e, ast.Name) and e.id in env:
+            return env[e.id]
+        if isinstance(e, ast.BinOp) and isinstance(e.op, ast.BitOr):
+            return ev(e.left) | ev(e.right)
+        if isinstance(e, ast.BinOp) and isinstance(e.op, ast.Sub):
+            return ev(e.left) - ev(e.right)
+        raise fail(e, "unsupported set expression in sharedparse.py")
+    for n in tree.body:
+        if isinstance(n, ast.AnnAssign) and isinstance(n.target, ast.Name) and n.value is not None:
+            try:
+                env[n.target.id] = ev(n.value)
+            except Unsupported:
+                pass
+    if "MAGIC_METHODS_POS_ARGS_ONLY" not in env:
+        raise Unsupported("MAGIC_METHODS_POS_ARGS_ONLY not found / not a set expression")
+    # the two predicates must still have the shape the model assumes
+    fns = {n.name: n for n in tree.body if isinstance(n, ast.FunctionDef)}
+    want = {
+        "special_function_elide_names": "return name in MAGIC_METHODS_POS_ARGS_ONLY",
+        "argument_elide_name": "return name is not None and name.startswith('__') and (not name.endswith('__'))",
+    }
+    for nm, body in want.items():
+        if nm not in fns or len(fns[nm].body) != 1 or ast.unparse(fns[nm].body[0]) != body:
+            raise Unsupported(f"{nm} changed: {ast.unparse(fns[nm]) if nm in fns else 'missing'}")
+    names = sorted(env["MAGIC_METHODS_POS_ARGS_ONLY"])
+    for x in names:
+        if not all(32 <= ord(c) < 127 for c in x) or '"' in x:
+            raise Unsupported(f"odd magic method name {x!r}")
+    out = ["(* GENERATED from mypy/sharedparse.py by tools/extractors/t14.py -- do not edit; regenerated on every run *)",
+           "From Coq Require Import List String Bool.", "Import ListNotations.", "Open Scope string_scope.", "",
+           "Definition MAGIC_METHODS_POS_ARGS_ONLY : list string :=\n  [" + ";\n   ".join('"' + x + '"' for x in names) + "].", "",
+           "(* special_function_elide_names(name) = name in MAGIC_METHODS_POS_ARGS_ONLY *)",
+           "Definition special_function_elide_names (name : string) : bool := existsb (String.eqb name) MAGIC_METHODS_POS_ARGS_ONLY.", "",
+           "(* argument_elide_name(name) = name.startswith('__') and not name.endswith('__') *)",
+           "Definition argument_elide_name (name : string) : bool :=",
+           "  prefix \"__\" name && negb (String.eqb (substring (String.length name - 2) 2 name) \"__\").", ""]
+    return "\n".join(out)
+
+
 def generate() -> dict[str, str]:
-    text = gen_clamp()
-    vlib.write_if_changed(os.path.join(vlib.GEN, "Clamp.v"), text)
-    return {"Clamp.v": text}
+    files = {"Clamp.v": gen_clamp(), "Magic.v": gen_magic()}
+    for k, v in files.items():
+        vlib.write_if_changed(os.path.join(vlib.GEN, k), v)
+    return files
 
 
 if __name__ == "__main__":
